@@ -44,6 +44,7 @@ def queries(tier):
     for cls, nm in ((0, "fresh"), (1, "stopped"), (2, "zero-timeout"), (3, "aborted")):
         qs.append(Query("dialer-start-aio-%s" % nm, "c14/dialer_connect.c", tus=["core/list.c", "core/options.c"],
                         env=["env_alloc.c", "env_misc.c", "env_sync.c", "env_aio.c", "env_libc.c"], defs={"STARTAIO": cls}, unwind=30, timeout=300,
+                        group="~c14/dialer_connect.c#STARTAIO",
                         params={"call_site": "nni_dialer_start_aio", "user_aio_state": nm, "connect_result": "any nng_err"}))
     return qs
 
